@@ -35,6 +35,7 @@ type Env struct {
 	instOnly []Val // when set: instantiate quantified hypotheses with exactly these terms and drop the quantified original
 	inQuant  bool
 	bound    map[string]Val
+	qvals    []Val           // values of the enclosing quantifiers' bound variables (outermost first)
 	altBlock *ssa.BasicBlock // second program point tried for local names (the call site of before/after)
 	altIdx   int
 }
@@ -78,6 +79,11 @@ func (tr *FnTrans) envAt(b *ssa.BasicBlock, idx int, heap, old *Heap) *Env {
 func (e *Env) evalGoal(x *Expr) string {
 	e2 := *e
 	e2.pol = 1
+	if e.tr != nil {
+		was := e.tr.deferEx
+		e.tr.deferEx = true
+		defer func() { e.tr.deferEx = was }()
+	}
 	return e2.evalBool(x)
 }
 
@@ -765,6 +771,10 @@ func (e *Env) binary(x *Expr) Val {
 		if tr.smt.sortOf(a.Ty) == "Bool" {
 			e.fail("operator %s on booleans", op)
 		}
+		if op == "+" && tr.smt.sortOf(a.Ty) == "Str" && tr.smt.sortOf(b.Ty) == "Str" {
+			// string concatenation: the same term the code's own concatenation of these operands gives
+			return Val{T: fmt.Sprintf("(str_concat %s %s)", a.T, b.T), Ty: a.Ty}
+		}
 		e.fail("operator %s on non-integer type %s", op, a.Ty)
 	}
 	if intWidth(a.Ty) != intWidth(b.Ty) && !tr.smt.intMode {
@@ -1283,10 +1293,41 @@ func (e *Env) quant(x *Expr) Val {
 		for k, v := range e.bound {
 			e2.bound[k] = v
 		}
-		for k, v := range bound {
-			e2.bound[k] = v
+		e2.qvals = append([]Val{}, e.qvals...)
+		for _, qv := range x.Vars {
+			if v, ok := bound[qv.Name]; ok {
+				e2.bound[qv.Name] = v
+				e2.qvals = append(e2.qvals, v)
+			}
 		}
 		return &e2
+	}
+	// witness of an existential nested in universals, as a function of their bound values: the same
+	// source existential used as a hypothesis (invariant at the loop head, callee postcondition) and
+	// as a goal (invariant after the step) then shares its witness terms
+	witness := func(qv qvar, t types.Type) (string, bool) {
+		if len(e.qvals) == 0 || len(x.Vars) != 1 {
+			return "", false
+		}
+		var sorts, args []string
+		for _, a := range e.qvals {
+			if strings.Contains(a.T, "%%") {
+				return "", false
+			}
+			sorts = append(sorts, tr.smt.sortOf(a.Ty))
+			args = append(args, a.T)
+		}
+		key := fmt.Sprintf("%p/%s/%s", x, qv.Name, strings.Join(sorts, ","))
+		name, ok := tr.smt.witFns[key]
+		if !ok {
+			if tr.smt.witFns == nil {
+				tr.smt.witFns = map[string]string{}
+			}
+			name = tr.smt.uniq("wit_" + qv.Name)
+			tr.smt.witFns[key] = name
+			tr.smt.prelude = append(tr.smt.prelude, fmt.Sprintf("(declare-fun %s (%s) %s)", name, strings.Join(sorts, " "), tr.smt.sortOf(t)))
+		}
+		return fmt.Sprintf("(%s %s)", name, strings.Join(args, " ")), true
 	}
 	toProve := (x.Op == "forall" && e.pol > 0) || (x.Op == "exists" && e.pol < 0)
 	toUse := (x.Op == "forall" && e.pol < 0) || (x.Op == "exists" && e.pol > 0)
@@ -1295,6 +1336,24 @@ func (e *Env) quant(x *Expr) Val {
 		b := map[string]Val{}
 		for _, qv := range x.Vars {
 			t := e.typeByName(qv.Type)
+			if x.Op == "exists" {
+				if w, ok := witness(qv, t); ok {
+					b[qv.Name] = Val{T: w, Ty: t}
+					if e.instOnly != nil {
+						tr.obWit = append(tr.obWit, Val{T: w, Ty: t})
+					}
+					known := false
+					for _, c := range tr.witTerms {
+						if c.T == w {
+							known = true
+						}
+					}
+					if !known {
+						tr.witTerms = append(tr.witTerms, Val{T: w, Ty: t})
+					}
+					continue
+				}
+			}
 			n := tr.smt.fresh("sk_"+qv.Name, tr.smt.sortOf(t))
 			v := Val{T: n, Ty: t}
 			b[qv.Name] = v
@@ -1328,10 +1387,52 @@ func (e *Env) quant(x *Expr) Val {
 		srt := tr.smt.sortOf(t)
 		var insts []string
 		seen := map[string]bool{}
+		prevWant := tr.wantTy
+		tr.wantTy = t
+		defer func() { tr.wantTy = prevWant }()
 		cands := tr.candidates(srt)
 		if e.instOnly != nil {
 			// new index terms combined with the ones already known (needed for nested quantifiers)
 			cands = tr.candidatesOf(append(append([]Val{}, tr.globalCands()...), e.instOnly...), srt)
+		}
+		if x.Op == "exists" {
+			if w, ok := witness(qv, t); ok {
+				cands = append(cands, w)
+			}
+			if e.pol > 0 {
+				// witnesses that hypotheses have named so far: instances of a goal existential only
+				// (they are never used to instantiate universals, so nothing cascades)
+				wt := tr.witTerms
+				if len(wt) > 12 {
+					wt = wt[len(wt)-12:]
+				}
+				cands = append(cands, tr.candidatesOf(wt, srt)...)
+			}
+		}
+		if x.Op == "exists" && e.pol > 0 && e.instOnly == nil && tr.deferEx {
+			// goal existential: its instances are chosen when the obligation is emitted, after the
+			// hypotheses have been instantiated with the goal's skolem constants (their witnesses
+			// are then available as instances). The placeholder occurs positively in the goal.
+			ph := tr.smt.fresh("exq", "Bool")
+			base := append([]string{}, cands...)
+			tr.deferredEx = append(tr.deferredEx, func() string {
+				all := append([]string{}, base...)
+				all = append(all, tr.candidatesOf(tr.obWit, srt)...)
+				var ds []string
+				dseen := map[string]bool{}
+				for _, c := range all {
+					if dseen[c] {
+						continue
+					}
+					dseen[c] = true
+					ie := mk(map[string]Val{qv.Name: {T: c, Ty: t}})
+					ds = append(ds, ie.eval(x.A[0]).T)
+				}
+				// G is monotone in the placeholder's position: with (instances => placeholder) assumed,
+				// proving G[placeholder] for every such placeholder proves G[disjunction of instances]
+				return fmt.Sprintf("(=> %s %s)", or(ds...), ph)
+			})
+			return Val{T: ph, Ty: boolT}
 		}
 		for _, c := range cands {
 			if seen[c] {
@@ -1388,6 +1489,20 @@ func (tr *FnTrans) candidatesOf(cands []Val, srt string) []string {
 		c := cands[i]
 		if tr.smt.sortOf(c.Ty) != srt {
 			continue
+		}
+		if w := tr.wantTy; w != nil {
+			// several Go types share one SMT sort (Int in mathematical mode): a string is no index,
+			// and a key of another integer type than `int` is only instantiated with terms of that type
+			wb, _ := w.Underlying().(*types.Basic)
+			cb, _ := c.Ty.Underlying().(*types.Basic)
+			if wb != nil && cb != nil {
+				if (wb.Info()&types.IsString != 0) != (cb.Info()&types.IsString != 0) {
+					continue
+				}
+				if wb.Info()&types.IsInteger != 0 && wb.Kind() != types.Int && !types.Identical(w.Underlying(), c.Ty.Underlying()) {
+					continue
+				}
+			}
 		}
 		n++
 		add(c.T)
